@@ -14,7 +14,8 @@ import (
 // the end of the file_id record beyond the decoder's 4096-byte buffer), a
 // record definition with 90 one-byte fields (3 x 90 > 255), and a definition
 // with the developer flag and 5 developer fields of 255 bytes (5 x 255 > the
-// 765-byte scratch buffer). A few payload bytes are arbitrary.
+// 765-byte scratch buffer), and a definition with 90 developer fields of one
+// byte (3 x 90 > 255). A few payload bytes are arbitrary.
 
 type vWide struct {
 	data      []byte
@@ -80,6 +81,16 @@ func vWideStreamSym(extra int, hrLast bool, sym bool) *vWide {
 			body.WriteByte(0xE0 | byte(k&15))
 		}
 	}
+	// local 3: record with heart_rate and 90 developer fields of one byte (3 x 90 > 255)
+	body.Write([]byte{0x63, 0, 0, 20, 0, 1, 3, 1, 0x02, 90})
+	for i := 0; i < 90; i++ {
+		body.Write([]byte{byte(i), 1, 0})
+	}
+	body.WriteByte(0x03)
+	body.WriteByte(w.hr[0])
+	for i := 0; i < 90; i++ {
+		body.WriteByte(0xE0 | byte(i&15))
+	}
 	hdr := make([]byte, 14)
 	vHeader14(hdr, uint32(body.Len()))
 	c := dyncrc16.Checksum(hdr[:12])
@@ -122,7 +133,7 @@ func (w *vWide) check(f *File, id string) {
 	ok := f != nil && f.FileId.Manufacturer == Manufacturer(w.manu) && f.FileId.Type == FileTypeActivity
 	if ok {
 		a, err := f.Activity()
-		ok = err == nil && len(a.Records) == 4
+		ok = err == nil && len(a.Records) == 5 && a.Records[4].HeartRate == w.hr[0]
 		if ok {
 			for i := range w.hr {
 				ok = ok && a.Records[i].HeartRate == w.hr[i]
